@@ -318,3 +318,69 @@ Example C30_witness_noraise :
   length (filter (fun e => match e with EStart _ _ _ _ _ _ _ _ => true | _ => false end) lg) = 4%nat /\
   length (filter (fun e => match e with EEnq _ _ _ _ => true | _ => false end) lg) = 5%nat.
 Proof. vm_compute. repeat split; reflexivity. Qed.
+
+(* ---- independence of the per-thread trampolines over whole runs (Core/TrampolineIndep.v) ------
+   (appended; needs Core.TrampolineIndep) *)
+From RxVerif Require Import Core.TrampolineIndep.
+
+(* ANY stretch b of a schedule in which thread o is not scheduled -- other threads run, on any
+   schedulers, and time passes -- leaves thread o itself (its whole call stack), every trampoline
+   that belongs to o and everything the log says about those trampolines ([klog]) unchanged.
+   Other threads reach thread o's trampolines only through what the next step of o reads from
+   the shared world: the clock, the set of disposed items and the item counter. *)
+Theorem C30_other_threads_stutter : forall c c0 hs a b o,
+  (forall th, In (Run th) b -> th <> o) ->
+  let cf := crun c (start_config c0 hs) a in
+  let cf' := crun c cf b in
+  nth_error (snd cf') o = nth_error (snd cf) o /\
+  forall k, owner k = Some o ->
+    tramps (fst cf') k = tramps (fst cf) k /\ klog k (log (fst cf')) = klog k (log (fst cf)).
+Proof. exact others_stutter. Qed.
+Print Assumptions C30_other_threads_stutter.
+
+(* hypothesis satisfiable, non-trivially: in the two-thread run of C30_witness_two_threads' kind,
+   thread 1 makes two steps while thread 0 is parked inside its drain loop *)
+Example C30_witness_stutter :
+  let cf := crun (Cfg false) (start_config 0 hs_shared) [Run 0; Run 0; Run 0; Run 0; Run 0]%nat in
+  let cf' := crun (Cfg false) cf [Run 1; Tick 3; Run 1]%nat in
+  length (log (fst cf')) = (length (log (fst cf)) + 2)%nat /\
+  option_map stk (nth_error (snd cf) 0) = Some [FRun (KShared 0) [] (PWait 10); FBody true []].
+Proof. vm_compute. split; reflexivity. Qed.
+
+(* The stronger reading "what the log says about o's trampolines is what it says in the run where
+   every step of another thread is replaced by the passage of the time it took" ([proj]) is FALSE
+   of the model: (1) another thread can dispose an item of o; (2) a shared TrampolineScheduler whose
+   runner is o executes another thread's action on thread o, and that action can schedule on o's
+   current-thread scheduler; (3) the item counter is shared, so even otherwise the ids differ. *)
+Theorem C30_independence_by_projection_refuted :
+  ~ (forall c c0 hs sch k o, owner k = Some o ->
+       klog k (log (fst (crun c (start_config c0 hs) sch)))
+       = klog k (log (fst (crun c (start_config c0 hs) (proj c o (start_config c0 hs) sch))))).
+Proof. exact independence_by_projection_refuted. Qed.
+Print Assumptions C30_independence_by_projection_refuted.
+
+Example C30_projection_refuted_by_cancel :
+  let cf0 := start_config 0 hs_cancel in
+  proj (Cfg false) 0 cf0 sch_cancel
+    = [Run 0; Run 0; Run 0; Run 0; Run 0; Tick 0; Run 0; Run 0; Run 0; Run 0; Run 0]%nat /\
+  klog (KLocal 0) (log (fst (crun (Cfg false) cf0 sch_cancel)))
+    = [EIdle (KLocal 0) 0; ESkip (KLocal 0) 0; EEnq (KLocal 0) 0 0 true; ECreate (KLocal 0) 0 0 10 0] /\
+  klog (KLocal 0) (log (fst (crun (Cfg false) cf0 (proj (Cfg false) 0 cf0 sch_cancel))))
+    = [EEnd (KLocal 0) 0 5 false; EStart (KLocal 0) 0 5 0 10 10 0 0; EEnq (KLocal 0) 0 0 true; ECreate (KLocal 0) 0 0 10 0].
+Proof. exact proj_refuted_cancel. Qed.
+
+Example C30_projection_refuted_by_shared_scheduler :
+  let cf0 := start_config 0 hs_shared in
+  klog (KLocal 0) (log (fst (crun (Cfg false) cf0 sch_shared)))
+    = [EIdle (KLocal 0) 0; EEnd (KLocal 0) 2 8 false; EStart (KLocal 0) 2 8 0 0 0 0 1; EEnq (KLocal 0) 2 0 true;
+       ECreate (KLocal 0) 2 0 0 0] /\
+  klog (KLocal 0) (log (fst (crun (Cfg false) cf0 (proj (Cfg false) 0 cf0 sch_shared)))) = [].
+Proof. exact proj_refuted_shared. Qed.
+
+Example C30_projection_refuted_by_ids :
+  let cf0 := start_config 0 hs_ids in
+  klog (KLocal 0) (log (fst (crun (Cfg false) cf0 sch_ids)))
+    = [EEnq (KLocal 0) 1 0 true; ECreate (KLocal 0) 1 0 0 0] /\
+  klog (KLocal 0) (log (fst (crun (Cfg false) cf0 (proj (Cfg false) 0 cf0 sch_ids))))
+    = [EEnq (KLocal 0) 0 0 true; ECreate (KLocal 0) 0 0 0 0].
+Proof. exact proj_refuted_ids. Qed.
